@@ -221,6 +221,30 @@ def run(ctx, sess):
                     bad.append(show(e)[:60])
             ctx.ob('C17.7', not bad, f.name, '%s is skipped only for the writer\'s own reserved item' % tag, c.where(),
                    'guards: reserved item only' if not bad else 'the re-issue is also skipped under %s: such items silently disappear from the copy' % bad)
+    # ... and every chunk that was read reaches the dispatch: nothing about the chunk itself decides that
+    hdr_tests = []
+    rdh = list(f.calls('jls_raw_rd_header'))
+    if not rdh:
+        raise AnalysisBroken('jls_copy: header read not found')
+    between = set()
+    work = [c_.block for c_ in rdh]
+    while work:
+        b_ = work.pop()
+        if b_.id in between or b_.id == sw.id:
+            continue
+        between.add(b_.id)
+        work.extend(s_ for s_, _ in b_.succs)
+    for (bid, label) in control_deps_transitive(f, sw.id):
+        cnd = f.blocks[bid].cond
+        if cnd is None or bid not in between:
+            continue
+        for nd in walk(cnd):
+            if nd.get('op') == 'member' and nd.get('rec') == 'jls_chunk_header_s':
+                hdr_tests.append((f.blocks[bid], show(strip_casts(cnd))[:60]))
+                break
+    ctx.ob('C17.7', not hdr_tests, f.name, 'every chunk read reaches the dispatch', '%s:%d' % (f.file, (hdr_tests[0][0] if hdr_tests else sw).line),
+           'the dispatch depends on read results only' if not hdr_tests else
+           'whether a chunk reaches the dispatch depends on %s: content chunks for which it decides otherwise (a user-data item with an empty payload) silently disappear from the copy' % ', '.join(x[1] for x in hdr_tests))
     _late()
 
 
